@@ -39,7 +39,9 @@ def make_inputs(root, name, tree):
 
 def child(root, name, crash_at, mode, trace=None):
     cmd = [PY, "-m", "harness.crash_child", root, name, str(crash_at), mode] + ([trace] if trace else [])
-    p = subprocess.run(cmd, cwd=core.VERIF, capture_output=True, text=True, timeout=300)
+    # one fixed hash seed for the reference run and every crash run: set / dict iteration orders (hence the order of the
+    # mutating events) are then the same in all of them, so "every event index" really is every crash point
+    p = subprocess.run(cmd, cwd=core.VERIF, capture_output=True, text=True, timeout=300, env=dict(os.environ, PYTHONHASHSEED="0"))
     return p.returncode, (p.stderr or "")[-600:]
 
 
